@@ -618,6 +618,32 @@ def _bystander_eui(ver, dialect, h):
         pass
 
 
+_SUBCLASSES = {}
+
+
+def _holder_module():
+    import types
+    m = sys.modules.get('usersubclasses')
+    if m is None:
+        m = types.ModuleType('usersubclasses')
+        sys.modules['usersubclasses'] = m
+    return m
+
+
+def _subclass_of(cls):
+    """a user subclass that adds nothing (module-level, so that it pickles); an instance of it is as good an address /
+    network / identifier as one of the base class"""
+    sub = _SUBCLASSES.get(cls)
+    if sub is None:
+        # same __name__ as the base (repr() prints the class name; the property's texts speak of IPNetwork('...')),
+        # registered under that name in a holder module so that pickle finds it by reference
+        name = cls.__name__
+        sub = type(name, (cls,), {'__slots__': (), '__module__': 'usersubclasses'})
+        setattr(_holder_module(), name, sub)
+        _SUBCLASSES[cls] = sub
+    return sub
+
+
 def maybe_clone(o, h):
     """for a quarter of the objects (by the stable hash h) hand out a clone instead - copy.copy, copy.deepcopy or a
     pickle round trip (every protocol): a clone is as good an object as the original (property C12 says
@@ -636,6 +662,17 @@ def maybe_clone(o, h):
         if k < 8:
             COUNTS['object/clone:pickle'] += 1
             return pickle.loads(pickle.dumps(o, min(k - 2, pickle.HIGHEST_PROTOCOL)))
+        if k < 11:
+            # copy-construction across classes: a user subclass built from the base-class object (and for k == 10 the
+            # base class built back from that).  The copy constructors copy version, value, prefix length / dialect
+            # whatever the classes involved (a seeded change tested isinstance(addr, self.__class__) and rebuilt a
+            # subclass network from a base network with the full-width prefix)
+            import netaddr
+            base = type(o)
+            if base in (netaddr.IPAddress, netaddr.IPNetwork, netaddr.EUI):
+                COUNTS['object/clone:user-subclass-copy-construction'] += 1
+                s = _subclass_of(base)(o)
+                return base(s) if k == 10 else s
     except Exception:
         return o
     return o
@@ -732,14 +769,26 @@ def twice(fn):
     if isinstance(first, (list, tuple)):
         COUNTS['call/asked-twice-first-answer-moved'] += 1
         disturb(*list(_ip_objects(first)))
-        if isinstance(first, list):
-            try:
-                first.reverse()
-                first.append(None)
-            except Exception:
-                pass
+        _scribble(first)
         return fn()
     return first
+
+
+def _scribble(r, depth=0):
+    """every list in an answer (the answer itself, or the lists inside a tuple of lists) is the caller's: reverse it
+    and append a foreign block to it (a seeded change handed out one shared module-level `[]` for every empty part of
+    cidr_partition's answer)"""
+    from netaddr import IPNetwork
+    if isinstance(r, list):
+        try:
+            r.reverse()
+            if len(r) < 300:        # a list that is shared after all must not grow without bound during a run
+                r.append(IPNetwork('198.51.100.0/24'))
+        except Exception:
+            pass
+    elif isinstance(r, tuple) and depth < 3:
+        for x in r:
+            _scribble(x, depth + 1)
 
 
 def make_range(ver, lo, hi):
